@@ -73,6 +73,11 @@ CHECKS = {
             "Generated scripts with arguments (incl. blanks and specials), functions in both header spellings, source chains to depth 3, exit / set -e / failing commands at random positions; the whole ordered event list and the exit status are compared.",
             "model in lib/c15.py; the state right after an if none of whose branches ran is not judged",
             "DESIGN.md 3 C15"),
+    "C18": ("exploration",
+            "runtime monitoring: the sqlite file is read by an independent client (python sqlite3) after every mutating step and listings come from fresh cicada processes; oracle = row model (one row per submission, verbatim, submission order, exact deletes, read-only searches); concurrent adders (conservation) and overlapping pty sessions",
+            "Random multi-process histories from directories and with texts/patterns over the quote/percent/underscore/backslash/semicolon/--/)/multi-byte alphabet incl. injection-shaped strings; interactive sessions for the leading-blank/repeat rules and for submission order under overlap.",
+            "LIKE exactness only demanded for wildcard-free ASCII patterns; option-looking patterns not judged",
+            "DESIGN.md 3 C18"),
 }
 
 NOT_YET = "check not built yet (work in progress); runtime monitoring is applicable and planned, see DESIGN.md section 3"
